@@ -23,8 +23,8 @@ import (
 func init() {
 	register(Property{ID: "C40", Level: "other", Run: runC40,
 		Technique: "static analysis: select-shape rule on every cross-goroutine request send (go/ssa), module-wide lock-order graph from a must-held lock dataflow with transitive acquire summaries over static and interface (CHA within the module) callees, cycle detection",
-		Text: "Decides two structural necessary conditions of deadlock-freedom; data races are NOT decided (they need a dynamic detector), nor is liveness under arbitrary schedules. (a) Every send on a struct-field channel that is received by a run loop of the same struct (the actor pattern: pathManager, path, Core, servers, static source handler, ...) is, outside that loop, one alternative of a blocking select whose other alternatives include a receive from the owner's context Done() (or terminate channel); path-to-manager calls additionally escape through the path's own context because the manager may be blocked in path.wait(); replies are received unconditionally after an accepted send (C19). (b) For every mutex field of the module the set of lock classes definitely held at each acquisition (directly or through the transitive summary of static and module-interface callees, excluding go statements) induces a lock-order graph; the graph has no cycle between distinct classes and no function re-acquires the write lock of the same receiver it already holds. (c) lock_released: for every acquisition of a struct-field mutex, every CFG path to a return of the acquiring function or to another acquisition of the same mutex passes the matching Unlock/RUnlock, a defer of it, or a hand-off `go x.f()` whose callee releases it on every path from its entry - a may-analysis that complements the must-held sets of (b), which cannot see a lock leaked on a single early-return path. Obligations = send sites + lock-order edges + acquisitions.",
-		Note: "trusted: go/ssa; lock classes are (struct type, field) pairs - two instances of one type are not distinguished, so only cycles between distinct classes and same-receiver re-acquisitions are reported; held sets are must-sets (intersection at joins), so an edge exists only where the lock is held on every path; locks taken inside third-party code are not modelled"})
+		Text:      "Decides two structural necessary conditions of deadlock-freedom; data races are NOT decided (they need a dynamic detector), nor is liveness under arbitrary schedules. (a) Every send on a struct-field channel that is received by a run loop of the same struct (the actor pattern: pathManager, path, Core, servers, static source handler, ...) is, outside that loop, one alternative of a blocking select whose other alternatives include a receive from the owner's context Done() (or terminate channel); path-to-manager calls additionally escape through the path's own context because the manager may be blocked in path.wait(); replies are received unconditionally after an accepted send (C19). (b) For every mutex field of the module the set of lock classes definitely held at each acquisition (directly or through the transitive summary of static and module-interface callees, excluding go statements) induces a lock-order graph; the graph has no cycle between distinct classes and no function re-acquires the write lock of the same receiver it already holds. (c) lock_released: for every acquisition of a struct-field mutex, every CFG path to a return of the acquiring function or to another acquisition of the same mutex passes the matching Unlock/RUnlock, a defer of it, or a hand-off `go x.f()` whose callee releases it on every path from its entry - a may-analysis that complements the must-held sets of (b), which cannot see a lock leaked on a single early-return path. Obligations = send sites + lock-order edges + acquisitions.",
+		Note:      "trusted: go/ssa; lock classes are (struct type, field) pairs - two instances of one type are not distinguished, so only cycles between distinct classes and same-receiver re-acquisitions are reported; held sets are must-sets (intersection at joins), so an edge exists only where the lock is held on every path; locks taken inside third-party code are not modelled"})
 	addMutants(
 		Mutant{"C40", "manager-call-without-escape", "internal/core/path_manager.go",
 			"	select {\n	case pm.chReloadConf <- pathConfs:\n	case <-pm.ctx.Done():\n	}", "	pm.chReloadConf <- pathConfs", "C40.send_escape"},
